@@ -427,6 +427,13 @@ class History:
             self.ctx.monitor("edits_applied")
             self.ctx.cover("op:edit_function:on-%s" % h["label"])
             return None
+        if cname is None and kind == "add_equation" and r.random() < 0.5:
+            # boundary size 0: the first equation of a class that has none
+            empty = [x for x in classes if not desc_class(lib, x)["eqs"] and not desc_class(lib, x).get("alias")
+                     and any(y["type"] == "Real" and not y["dims"] and not (set(y["prefixes"]) & {"parameter", "constant"}) for y in desc_class(lib, x)["comps"])]
+            if empty:
+                cname = r.choice(empty)
+                self.ctx.cover("op:add_equation:first-equation-of-the-class")
         cname = cname or r.choice(classes)
         d = desc_class(lib, cname)
         c = get_class(tree, cname)
